@@ -484,11 +484,25 @@ def o5(rep):
     fn = f.func("emitTheObject")
     cfg = common.CFG(fn)
 
+    # locals assigned exactly once in the function (a flag computed before the test)
+    once = {}
+    for x in walk(fn["body"]):
+        if x["k"] == "BinaryOperator" and x["op"] == "=":
+            l = strip(x["c"][0])
+            if l is not None and l["k"] == "DeclRefExpr" and l.get("dk") not in ("param", "parm"):
+                once.setdefault(l["n"], []).append(x["c"][1])
+        elif x["k"] == "DeclStmt":
+            for d in x.get("decls", []):
+                if d.get("init") is not None:
+                    once.setdefault(d["n"], []).append(d["init"])
+
     def lookup(n, env):
         if n["k"] == "ArraySubscriptExpr" and (strip(n["c"][0]) or {}).get("n") == "emitKeep":
             return 1
         if n["k"] == "MemberExpr" and n["n"] == "isAXLmain":
             return 0
+        if n["k"] == "DeclRefExpr" and len(once.get(n["n"], ())) == 1 and n["n"] not in env:
+            return peval(once[n["n"]][0], dict(env, **{n["n"]: None}), lookup)
         return None
 
     def edge_ok(b, s_):
